@@ -5407,6 +5407,8 @@ class TensorDictBase(MutableMapping):
                     )
                 if not return_early:
                     wait(r)
+                    for future in r:
+                        future.result()
                 else:
                     # TODO: We'd need to merge the second half of this function to make this a thing
                     raise NotImplementedError(
@@ -5637,6 +5639,9 @@ class TensorDictBase(MutableMapping):
                 )
                 if not return_early:
                     concurrent.futures.wait(futures)
+                    # a writer that failed must fail the call, as it does without threads
+                    for future in futures:
+                        future.result()
                     return result
                 else:
                     return TensorDictFuture(futures, result)
@@ -5839,6 +5844,9 @@ class TensorDictBase(MutableMapping):
                 )
                 if not return_early:
                     concurrent.futures.wait(futures)
+                    # a writer that failed must fail the call, as it does without threads
+                    for future in futures:
+                        future.result()
                     return result
                 else:
                     return TensorDictFuture(futures, result)
@@ -5944,6 +5952,9 @@ class TensorDictBase(MutableMapping):
                 )
                 if not return_early:
                     concurrent.futures.wait(futures)
+                    # a writer that failed must fail the call, as it does without threads
+                    for future in futures:
+                        future.result()
                     return result
                 else:
                     return TensorDictFuture(futures, result)
